@@ -108,6 +108,7 @@ def value_of(x):
 class State:
     def __init__(self, wmodel):
         self.kern = {}
+        self.dm = {}
         self.wrap = {}
         self.wmodel = wmodel
 
@@ -163,6 +164,27 @@ def do_op(st, e):
         except Exception as exc:
             val = ["raised", type(exc).__name__]
         return key, val, not same(before, pars)
+    if op == "direct":
+        from sasmodels.direct_model import DirectModel
+        from sasmodels.data import empty_data1D, Data2D
+        k = (e["m"], e["q"])
+        if k not in st.dm:
+            q = QS[e["q"]]
+            data = empty_data1D(q[0]) if len(q) == 1 else Data2D(x=q[0], y=q[1])
+            st.dm[k] = DirectModel(data, model(e["m"]))
+        calc = st.dm[k]
+        pars, cutoff = request(calc.model.info, e["r"], False)
+        calc.cutoff = cutoff
+        before = copy.deepcopy(pars)
+        key = "dm|%s|%s|%s" % (e["m"], e["q"], e["r"])
+        try:
+            val = value_of(calc(**pars))
+        except Exception as exc:
+            val = ["raised", type(exc).__name__]
+        return key, val, not same(before, pars)
+    if op == "reload":
+        model(e["m"], reload=True)
+        return "", [], False
     if op == "release":
         st.kern.pop(e["s"])[0].release()
         return "", [], False
@@ -209,6 +231,11 @@ def do_op(st, e):
 
 def oracle(key):
     kind, m, q, r = key.split("|")
+    if kind == "dm":
+        st = State({})
+        k, val, _ = do_op(st, {"op": "direct", "m": m, "q": q, "r": r})
+        assert k == key, (k, key)
+        return val
     if kind == "sv":
         st = State({"w1": m})
         do_op(st, {"op": "set", "w": "w1", "r": r})
